@@ -16,9 +16,10 @@ imported, not duplicated); only the selection of the radix (`parse_number`'s fir
 caller's default instead of 10) is restated here, and proved to coincide with C12's for the default 10.
 -/
 import SteelVerif.C10.Model
+import SteelVerif.C10.GenOps
 import SteelVerif.C12.Lemmas
 namespace SteelVerif.C10
-open SteelVerif.C12 (Text natDigits hexDigitLower RealLit NumLit parseNumberBody radixPrefix)
+open SteelVerif.C12 (Text natDigits hexDigitLower RealLit NumLit parseNumberBody radixPrefix zeroDen)
 
 /-! ## number → text -/
 
@@ -57,8 +58,9 @@ def radixOf (dflt : Nat) : Text → Text × Nat
 /-- `real_literal_to_steelval`.  `IntLiteral::from_str_radix` yields `Small` exactly when the value fits
 an `isize`; `(Small, Small)` with both parts in `i32` goes through `Rational32::new`, with a zero
 denominator it is the `BadSyntax` "division by zero" error; every other combination goes through
-`BigRational::new` — which panics on a zero denominator (a `Big` numerator over `0`). -/
-def litToNum : RealLit → Res Num
+`BigRational::new` — which panics on a zero denominator (a `Big` numerator over `0`) unless the guard of the
+repaired code (`checked`) reports the same error first. -/
+def litToNumC (checked : Bool) : RealLit → Res Num
   | .int i => .ok (normInt i)
   | .rat n d =>
     if fitsIsize n && fitsIsize d then
@@ -67,20 +69,30 @@ def litToNum : RealLit → Res Num
         let r ← ratio32New n d
         pure (normR32 r)
       else fromQ n d
+    else if checked && d == 0 then .err .div0
     else fromQ n d
   | _ => .err .unmodelled            -- inexact literals: outside the exact tower
 
-/-- `string_to_number` (`none` = `#f`). -/
-def stringToNumber (radix : Option Nat) (s : Text) : Res (Option Num) :=
+/-- the current tree (`Gen.s2nChecked`, regenerated from strings.rs / parser.rs). -/
+def litToNum : RealLit → Res Num := litToNumC Gen.s2nChecked
+
+/-- `string_to_number` (`none` = `#f`).  `checked`: the repaired code filters a literal with a zero denominator
+(`has_zero_denominator`) into `#f` before converting it. -/
+def stringToNumberC (checked : Bool) (radix : Option Nat) (s : Text) : Res (Option Num) :=
   let p := radixOf (radix.getD 10) s
   match parseNumberBody p.2 p.1 with
   | none => .ok none
   | some (.real lit) =>
-    match litToNum lit with
-    | .ok v => .ok (some v)
-    | .err e => .err e
-    | .panic => .panic
-  | some _ => .err .unmodelled       -- complex and polar literals
+    if checked && zeroDen lit then .ok none
+    else
+      match litToNumC checked lit with
+      | .ok v => .ok (some v)
+      | .err e => .err e
+      | .panic => .panic
+  | some (.complex a b) => if checked && (zeroDen a || zeroDen b) then .ok none else .err .unmodelled
+  | some (.polar a b) => if checked && (zeroDen a || zeroDen b) then .ok none else .err .unmodelled
+
+def stringToNumber (radix : Option Nat) (s : Text) : Res (Option Num) := stringToNumberC Gen.s2nChecked radix s
 
 /-- `string_to_number` with its argument check (`radix` must lie in 2..16). -/
 def stringToNumberPrim (radix : Option Int) (s : Text) : Res (Option Num) :=
